@@ -188,5 +188,30 @@ CLAIMS = {
         "technique": "Coq proof (order/equivalence laws on code-point lists; protocol consistency) + generated protocol obligation + object stream",
         "design_ref": "DESIGN.md §4 C16",
     },
+    "C14": {
+        "text": "PARTIAL. Theorem C14_noninterference (any number of threads, any step programs over shared cells, any schedule: "
+                "if no thread reads a cell some thread writes, every thread ends with its solo result; induction on the schedule) and "
+                "its corollary for write-free programs; data obligations on the mutation table regenerated from the whole package "
+                "(C14_no_shared_writes: no statement that can run after import stores into an object outliving the call - "
+                "algorithm singletons, registries, module globals, parameters; C14_registry_loaded: every registry read at run time "
+                "was loaded at import). On the implementation: deterministic exploration (sys.settrace) of every schedule in which "
+                "one call runs atomically after k source lines of the other, all k, both orders, plus random fine-grained schedules, "
+                "for pairs routed to the same shared objects. Not modelled: CPython bytecode-level atomicity, thread-safety of dicts, "
+                "the re cache and pycountry's lazy load. Found and fixed: shared self.remainder (1c60465).",
+        "note": COMMON_NOTE + " The link between 'empty mutation table' and 'calls are write-free programs' is the translator's static mutation scan (tools/translate.py gen_access), which is trusted.",
+        "technique": "Coq proof (schedule induction, non-interference) + generated mutation-table obligations + deterministic schedule exploration on the real code",
+        "design_ref": "DESIGN.md §4 C14",
+    },
+    "C15": {
+        "text": "Theorem C15_history_independent (a call that writes every cell before reading it returns the same after any history) "
+                "with data obligations on tables regenerated from the package: every post-import store targets a scratch attribute "
+                "of an algorithm object (C15_only_scratch), each scratch attribute is written before it is read on every entry point "
+                "of every algorithm class (C15_write_before_read, on flat load/store sequences of the inlined call trees), and no "
+                "lazy registry load can happen at run time. On the implementation: a long shuffled history in one process vs the pure "
+                "model, the same calls in two orders in two fresh processes, and a digest of registries and earlier objects before/after.",
+        "note": COMMON_NOTE + " Event sequences ignore control flow (source order of the inlined call tree), which over-approximates reads before writes.",
+        "technique": "Coq proof (write-before-read independence) + generated access-table obligations + history streams",
+        "design_ref": "DESIGN.md §4 C15",
+    },
 }
 NOT_APPLICABLE = {}
